@@ -88,4 +88,8 @@ Definition fa_spec_code (k : fa_case) : nat :=
           let model_case := mkFaCase (fc_fn k) (fc_ctx k) (fc_modulename k) (fc_mexists k)
                                      (mkFaObs (v_gets ms) (v_sets ms) (v_dels ms) (v_calls ms) (v_warn ms) OOk) in
           (if forallb (fun x => occ_mem x (missed true model_case)) (missed true k) then 0 else 1024)
-          + (if forallb (fun w => existsb (warn_eqb w) (v_warn ms)) (spurious k) then 0 else 2048)).
+          + (if forallb (fun w => existsb (warn_eqb w) (v_warn ms)) (spurious k) then 0 else 2048)
+          (* C02 finding class: the body contains an expression whose spine passes through an attribute-access
+             builtin other than a well-formed literal chain (KF_C10_1): its spelling is not the README's *)
+          + (if existsb (fun n => KF_C10_1 n) (flat_map (fold_nodes (fun n => [n])) (body_of (fc_fn k))) then 4096 else 0)
+          + (if forallb (fun x => occ_mem x (phantoms model_case)) (phantoms k) then 0 else 8192)).
